@@ -293,6 +293,13 @@ class TreeFx:
         if op is not None and ep is not None and op == ep + "._parent":
             if ep in params:
                 return {("detach", ep)}
+            # the node was looked up in the registry by an id parameter: detaches the node with that id
+            for n in ast.walk(fi.node):
+                if isinstance(n, ast.Assign) and len(n.targets) == 1 and isinstance(n.targets[0], ast.Name) and n.targets[0].id == ep \
+                        and isinstance(n.value, ast.Call) and n.value.args and isinstance(n.value.args[0], ast.Name) and n.value.args[0].id in params:
+                    f = n.value.func
+                    if isinstance(f, ast.Attribute) and (f.attr == "get_node_instance" or (f.attr == "get" and self.is_store(ft, f.value))):
+                        return {("detach_id", n.value.args[0].id)}
             r = roots.get(ep.split(".")[0], {"?"})
             return {("shrink_below", x) if x in params else ("shrink_any",) for x in (r or {"?"}) if x != "F"}
         if op in params:
@@ -395,6 +402,19 @@ class TreeFx:
             if p in params:
                 return {("detach", p)}
             return below(a)
+        if k == "detach_id":
+            a = am.get(fx[1])
+            p = self._pathof(ft, a) if a is not None else None
+            if p in params:
+                return {("detach_id", p)}
+            if p is not None and p.endswith("._id"):
+                q = p[:-4]
+                if q in params:
+                    return {("detach", q)}
+                return {("detach_local", q)} | below(a)
+            return {("shrink_any",)}
+        if k == "detach_local":
+            return below(None)
         if k == "remove":
             ao, ae = am.get(fx[1]), am.get(fx[2])
             if ao is None:
